@@ -1,7 +1,9 @@
 """C09 — definite assignment: no read of a possibly undefined variable or field."""
+import re
+
 from hypothesis import strategies as st
 
-from pbt import pyoracle, sites
+from pbt import pyoracle, scopegen, sites
 from pbt.worker import outcome
 
 WORLD = """class HErr(msg: Str): Exception(msg)
@@ -131,9 +133,12 @@ class C09:
 
     def strategy(self, tier, switches):
         SWITCHES.update(s.split(".", 1)[1] for s in switches if "." in s)
-        return _case()
+        return st.one_of(_case(), _case(), _case(), scopegen.scope_case("read", True), scopegen.ctor_case())
 
     def summarize(self, case):
+        if case.get("gen") in ("scope", "ctor"):
+            return {"gen": case["gen"], "expect": case["expect"], "fault": case["fault"],
+                    "program": case["src"][len(scopegen.HEADER if case["gen"] == "scope" else scopegen.CT_HEADER):]}
         return {k: case[k] for k in ("kind", "direction", "position", "use", "expect")} | {"tail": case["src"][len(WORLD):]}
 
     def check(self, worker, case, stats):
@@ -145,6 +150,8 @@ class C09:
         for k, v in list(EXCLUDED.items()):
             stats.inc("excluded_known:" + k, v)
         EXCLUDED.clear()
+        if case.get("gen") in ("scope", "ctor"):
+            return self.check_scope(worker, case, stats, r, oc)
         stats.inc("shape:%s/%s" % (case["direction"], case["kind"]))
         stats.inc("position:" + case["position"])
         stats.mark_nontrivial({"src": case["src"]}, sample=self.summarize(case), key=case["kind"])
@@ -169,4 +176,40 @@ class C09:
             return {"what": "accepted program (%s at %s) raises %s when run: %s" % (case["kind"], case["position"], got["exc"],
                                                                                    got.get("excmsg")),
                     "python": r["ok"][0], "tail": tail}
+        return None
+
+    SUBJECT = re.compile(r"[Uu]ndefined|not defined|unassigned|not assigned|[Uu]nknown variable")
+
+    def check_scope(self, worker, case, stats, r, oc):
+        """ScopeGen / constructor cases: legal program by the scoping model, optionally one planted read of a name or field
+        that is not defined on every path."""
+        g = case["gen"]
+        fault = case["fault"]
+        stats.inc("%s:%s" % (g, ("fault/" + fault["kind"]) if fault else "legal"))
+        for f in case["features"]:
+            stats.inc("%s_feature:%s" % (g, f))
+        stats.mark_nontrivial({"src": case["src"]}, sample=self.summarize(case), key=(g, fault["kind"] if fault else None))
+        prog = case["src"][len(scopegen.HEADER if g == "scope" else scopegen.CT_HEADER):]
+        if oc != case["expect"]:
+            rr = worker.call({"op": "transpile_rep", "files": [[case["src"], None]], "dir": "", "annotate": False, "k": 10})
+            if any(outcome(x) != oc for x in rr.get("results", [])):
+                stats.inc("nondeterministic_left_to_C12")
+                return None
+            if case["expect"] == "err":
+                return {"what": "a read of a name / field that is not defined on every path is accepted: %s" % (fault,),
+                        "program": prog}
+            if any(self.SUBJECT.search(d) for d in r["err"]):
+                return {"what": "every read of this program is dominated by a definition, yet it is rejected as undefined",
+                        "diagnostics": r["err"][:2], "program": prog}
+            stats.inc("%s:legal_rejected_for_another_reason" % g)
+            return None
+        if oc == "err":
+            if not (r["err"] and all(isinstance(d, str) and d.strip() for d in r["err"])):
+                return {"what": "rejection without diagnostics"}
+            return None
+        got = pyoracle.run_module(r["ok"][0], 50000)
+        stats.inc("executed")
+        if got["exc"] in ("NameError", "UnboundLocalError", "AttributeError"):
+            return {"what": "accepted %s program raises %s when run: %s" % (g, got["exc"], got.get("excmsg")),
+                    "python": r["ok"][0], "program": prog}
         return None
